@@ -521,10 +521,15 @@ leaps_before(struct dt_dt_s d)
 		res = leaps_before_ui32(leaps_ymd, nleaps, d.d.ymd.u);
 		on = res + 1 < nleaps && leaps_ymd[res + 1] == d.d.ymd.u;
 		break;
-	case DT_YMCW:
-		res = leaps_before_ui32(leaps_ymcw, nleaps, d.d.ymcw.u);
-		on = res + 1 < nleaps && leaps_ymcw[res + 1] == d.d.ymcw.u;
+	case DT_YMCW: {
+		/* ymcw dates aren't increasing within a month,
+		 * go through ymd */
+		const dt_ymd_t x = dt_dconv(DT_YMD, d.d).ymd;
+
+		res = leaps_before_ui32(leaps_ymd, nleaps, x.u);
+		on = res + 1 < nleaps && leaps_ymd[res + 1] == x.u;
 		break;
+	}
 	case DT_DAISY:
 		res = leaps_before_ui32(leaps_d, nleaps, d.d.daisy);
 		on = res + 1 < nleaps && leaps_d[res + 1] == d.d.daisy;
